@@ -316,6 +316,11 @@ pub fn run() {
         let pool = if r.chance(0.7) { PhPool::Exact } else { PhPool::Float };
         check_circuit_family("circuit-derived", i, r, pool, cq, cd);
     });
+    // larger circuits (the evaluator's bucket elimination keeps them cheap: width ~ qubits)
+    let (lq, ld, ln) = t.pick((5usize, 30usize, 60usize), (6usize, 60usize, 6_000usize));
+    par_cases("circuit-derived-large", ln, move |r, i| {
+        check_circuit_family("circuit-derived-large", i, r, PhPool::Exact, lq, ld);
+    });
     // exhaustive tiny
     let max_ns = t.pick(2usize, 3usize);
     let mut exhaustive_done = true;
